@@ -48,4 +48,642 @@ theorem bitsToNat_append_true (g : List Bool) :
     bitsToNat (g ++ [true]) = 2 ^ g.length + bitsToNat g := by
   rw [bitsToNat_append]; simp; omega
 
+/-! ## non-composite kinds -/
+
+theorem rt_uint (nb n : Nat) (rest : Stream) (hwt : WT (.uint nb) (.num n) = true) :
+    deser (.uint nb) (toLE nb n ++ rest) (toLE nb n).length = some (.num n, rest) := by
+  simp only [WT, decide_eq_true_eq] at hwt
+  simp only [deser, toLE_length, bne_self_eq_false, Bool.false_eq_true, if_false,
+    take_app _ _ nb (toLE_length nb n), drop_app _ _ nb (toLE_length nb n), fromLE_toLE' nb n hwt]
+
+theorem rt_bool (n : Nat) (rest : Stream) (hwt : WT .bool (.num n) = true) :
+    deser .bool ([UInt8.ofNat n] ++ rest) [UInt8.ofNat n].length = some (.num n, rest) := by
+  simp only [WT, decide_eq_true_eq] at hwt
+  have : n = 0 ∨ n = 1 := by omega
+  rcases this with rfl | rfl <;> simp [deser]
+
+theorem rt_bytevector (len : Nat) (bs : List UInt8) (rest : Stream)
+    (hwt : WT (.bytevector len) (.bytes bs) = true) :
+    deser (.bytevector len) (bs ++ rest) bs.length = some (.bytes bs, rest) := by
+  simp only [WT, beq_iff_eq] at hwt
+  subst hwt
+  simp [deser]
+
+theorem rt_bytelist (lim : Nat) (bs : List UInt8) (rest : Stream)
+    (hwt : WT (.bytelist lim) (.bytes bs) = true) :
+    deser (.bytelist lim) (bs ++ rest) bs.length = some (.bytes bs, rest) := by
+  simp only [WT, decide_eq_true_eq] at hwt
+  have : ¬ (bs.length > lim) := by omega
+  simp [deser, this]
+
+theorem rt_bitvector (len : Nat) (bs : List Bool) (rest : Stream) (hwf : (Ty.bitvector len).wf = true)
+    (hwt : WT (.bitvector len) (.bits bs) = true) :
+    deser (.bitvector len) (bitsToBytes bs ++ rest) (bitsToBytes bs).length = some (.bits bs, rest) := by
+  simp only [WT, beq_iff_eq] at hwt
+  simp only [Ty.wf, decide_eq_true_eq] at hwf
+  subst hwt
+  have hne : bs ≠ [] := by intro h; subst h; simp at hwf
+  have hl := bitsToBytes_length bs
+  have hlast := bitsToBytes_getLastD bs hne
+  have hg : (bs.drop (8 * ((bs.length + 7) / 8 - 1))).length ≤ 8 := by
+    simp only [List.length_drop]; omega
+  have hbl := bitLength_ofNat_bitsToNat_le _ hg
+  simp only [List.length_drop] at hbl
+  have hc : ¬ (((bs.length + 7) / 8 - 1) * 8 + bitLength ((bitsToBytes bs).getLastD 0).toNat > bs.length) := by
+    rw [hlast]; omega
+  have hz : (bs.length + 7) / 8 ≠ 0 := by omega
+  simp only [deser, hl, bne_self_eq_false, Bool.false_eq_true, if_false,
+    take_app _ _ _ hl, drop_app _ _ _ hl, hc, hz, Bool.or_self, decide_false,
+    bytesToBits_bitsToBytes]
+
+theorem rt_bitlist (lim : Nat) (bs : List Bool) (rest : Stream)
+    (hwt : WT (.bitlist lim) (.bits bs) = true) :
+    deser (.bitlist lim) (bitsToBytes (bs ++ [true]) ++ rest) (bitsToBytes (bs ++ [true])).length
+      = some (.bits bs, rest) := by
+  simp only [WT, decide_eq_true_eq] at hwt
+  have hne : bs ++ [true] ≠ [] := by simp
+  have hl : (bitsToBytes (bs ++ [true])).length = bs.length / 8 + 1 := by
+    rw [bitsToBytes_length]; simp only [List.length_append, List.length_cons, List.length_nil]; omega
+  have hlast := bitsToBytes_getLastD _ hne
+  have hd : (bs ++ [true]).drop (8 * (((bs ++ [true]).length + 7) / 8 - 1))
+      = bs.drop (8 * (bs.length / 8)) ++ [true] := by
+    have e : 8 * (((bs ++ [true]).length + 7) / 8 - 1) = 8 * (bs.length / 8) := by
+      simp only [List.length_append, List.length_cons, List.length_nil]; omega
+    rw [e, List.drop_append_of_le_length (by omega)]
+  have hgl : (bs.drop (8 * (bs.length / 8))).length = bs.length % 8 := by
+    simp only [List.length_drop]; omega
+  rw [hd, bitsToNat_append_true, hgl] at hlast
+  have hlt : bitsToNat (bs.drop (8 * (bs.length / 8))) < 2 ^ (bs.length % 8) := by
+    have := bitsToNat_lt (bs.drop (8 * (bs.length / 8))); rwa [hgl] at this
+  have hp : 2 ^ (bs.length % 8) ≤ 2 ^ 7 := Nat.pow_le_pow_right (by decide) (by omega)
+  have hv : (UInt8.ofNat (2 ^ (bs.length % 8) + bitsToNat (bs.drop (8 * (bs.length / 8))))).toNat
+      = 2 ^ (bs.length % 8) + bitsToNat (bs.drop (8 * (bs.length / 8))) := by
+    rw [UInt8.toNat_ofNat']; apply Nat.mod_eq_of_lt; omega
+  have hbl := bitLength_two_pow_add _ _ hlt
+  have hpos := Nat.two_pow_pos (bs.length % 8)
+  have h1 : ¬ (bs.length / 8 + 1 < 1) := by omega
+  have h2 : ¬ (bs.length / 8 + 1 > lim / 8 + 1) := by
+    have := Nat.div_le_div_right (c := 8) hwt; omega
+  have h3 : ¬ (2 ^ (bs.length % 8) + bitsToNat (bs.drop (8 * (bs.length / 8))) = 0) := by omega
+  have h4 : (bs.length / 8 + 1 - 1) * 8 + (bs.length % 8 + 1 - 1) = bs.length := by omega
+  have h5 : ¬ (bs.length > lim) := by omega
+  have htk : (bytesToBits (bitsToBytes (bs ++ [true]))).take bs.length = bs := by
+    rw [bytesToBits_bitsToBytes_eq, List.append_assoc, List.take_left]
+  simp only [deser, hl, take_app _ _ _ hl, drop_app _ _ _ hl, h1, h2, if_false, bne_self_eq_false,
+    Bool.false_eq_true, hlast, hv, hbl, h3, h4, h5, htk]
+
+/-! ## structure of `interleave` -/
+
+/-- the offsets written into the fixed section (running sums starting at `off`) -/
+def offsList : List (Bool × List UInt8) → Nat → List Nat
+  | [], _ => []
+  | (true, _) :: rest, off => offsList rest off
+  | (false, b) :: rest, off => off :: offsList rest (off + b.length)
+
+/-- the offsets followed by the end of the variable section -/
+def bounds : List (Bool × List UInt8) → Nat → List Nat
+  | [], off => [off]
+  | (true, _) :: rest, off => bounds rest off
+  | (false, b) :: rest, off => off :: bounds rest (off + b.length)
+
+theorem offsList_append_end (parts : List (Bool × List UInt8)) (off : Nat) :
+    offsList parts off ++ [off + (varSection parts).length] = bounds parts off := by
+  induction parts generalizing off with
+  | nil => simp [offsList, bounds, varSection]
+  | cons p rest ih =>
+    obtain ⟨f, b⟩ := p
+    cases f
+    · simp only [offsList, bounds, varSection, List.cons_append, List.length_append, ← ih]
+      rw [Nat.add_assoc]
+    · simp only [offsList, bounds, varSection, ih]
+
+theorem bounds_head (parts : List (Bool × List UInt8)) (off : Nat) :
+    ∃ tl, bounds parts off = off :: tl := by
+  induction parts generalizing off with
+  | nil => exact ⟨[], rfl⟩
+  | cons p rest ih =>
+    obtain ⟨f, b⟩ := p
+    cases f
+    · exact ⟨_, rfl⟩
+    · simp only [bounds]; exact ih off
+
+theorem mem_parts_le_interleave (parts : List (Bool × List UInt8)) (p : Bool × List UInt8)
+    (h : p ∈ parts) : p.2.length ≤ (interleave parts).length := by
+  rw [interleave_length]
+  induction parts with
+  | nil => simp at h
+  | cons q rest ih =>
+    simp only [List.map_cons, List.sum_cons]
+    rcases List.mem_cons.1 h with rfl | h'
+    · have : p.2.length ≤ partLen p.1 p.2.length := by unfold partLen; split <;> omega
+      omega
+    · have := ih h'; omega
+
+/-- all parts fixed-size: plain concatenation -/
+def fparts (ser : Val → List UInt8) (vs : List Val) : List (Bool × List UInt8) :=
+  vs.map fun v => (true, ser v)
+
+/-- all parts variable-size -/
+def vparts (ser : Val → List UInt8) (vs : List Val) : List (Bool × List UInt8) :=
+  vs.map fun v => (false, ser v)
+
+@[simp] theorem fparts_nil (ser : Val → List UInt8) : fparts ser [] = [] := rfl
+@[simp] theorem fparts_cons (ser : Val → List UInt8) (v : Val) (vs : List Val) :
+    fparts ser (v :: vs) = (true, ser v) :: fparts ser vs := rfl
+@[simp] theorem vparts_nil (ser : Val → List UInt8) : vparts ser [] = [] := rfl
+@[simp] theorem vparts_cons (ser : Val → List UInt8) (v : Val) (vs : List Val) :
+    vparts ser (v :: vs) = (false, ser v) :: vparts ser vs := rfl
+
+theorem interleave_fparts (ser : Val → List UInt8) (vs : List Val) :
+    interleave (fparts ser vs) = (vs.map ser).flatten := by
+  have h2 : varSection (fparts ser vs) = [] := by
+    induction vs with
+    | nil => rfl
+    | cons v vs ih => simp [varSection, ih]
+  have h1 : ∀ off, fixedSection (fparts ser vs) off = (vs.map ser).flatten := by
+    clear h2
+    induction vs with
+    | nil => intro off; rfl
+    | cons v vs ih => intro off; simp [fixedSection, ih]
+  simp [interleave, h1, h2]
+
+theorem fixedTotal_vparts (ser : Val → List UInt8) (vs : List Val) :
+    fixedTotal (vparts ser vs) = 4 * vs.length := by
+  induction vs with
+  | nil => rfl
+  | cons v vs ih => simp only [vparts_cons, fixedTotal, ih, List.length_cons]; omega
+
+/-! ## the helper loops, for an arbitrary element decoder -/
+
+theorem deserFixedN_flatten (dec : Dec) (l : Nat) (ser : Val → List UInt8) (vs : List Val)
+    (rest : Stream) (h : ∀ v ∈ vs, ∀ r, dec (ser v ++ r) l = some (v, r)) :
+    deserFixedN dec l vs.length ((vs.map ser).flatten ++ rest) = some (vs, rest) := by
+  induction vs with
+  | nil => rfl
+  | cons v vs ih =>
+    have hv := h v (by simp) ((vs.map ser).flatten ++ rest)
+    have ih' := ih (fun w hw => h w (by simp [hw]))
+    simp only [List.length_cons, List.map_cons, List.flatten_cons, List.append_assoc, deserFixedN,
+      hv, ih']
+
+theorem flatten_length_const (l : Nat) (ser : Val → List UInt8) (vs : List Val)
+    (h : ∀ v ∈ vs, (ser v).length = l) : ((vs.map ser).flatten).length = vs.length * l := by
+  induction vs with
+  | nil => simp
+  | cons v vs ih =>
+    have hv := h v (by simp)
+    have ih' := ih (fun w hw => h w (by simp [hw]))
+    simp only [List.map_cons, List.flatten_cons, List.length_append, hv, ih', List.length_cons,
+      Nat.succ_mul]
+    omega
+
+theorem deserSeqWith_fixed (dec : Dec) (l emin emax : Nat) (validCount : Nat → Bool)
+    (ser : Val → List UInt8) (vs : List Val) (rest : Stream) (hl : 0 < l)
+    (hser : ∀ v ∈ vs, (ser v).length = l)
+    (hdec : ∀ v ∈ vs, ∀ r, dec (ser v ++ r) l = some (v, r))
+    (hvc : validCount vs.length = true) :
+    deserSeqWith dec true l emin emax validCount (interleave (fparts ser vs) ++ rest)
+      (interleave (fparts ser vs)).length = some (.seq vs, rest) := by
+  rw [interleave_fparts, flatten_length_const l ser vs hser]
+  have h0 : ¬ (l = 0) := by omega
+  have h1 : vs.length * l % l = 0 := Nat.mul_mod_left _ _
+  have h2 : vs.length * l / l = vs.length := Nat.mul_div_cancel _ hl
+  simp only [deserSeqWith, if_true, h0, if_false, h1, h2, hvc, deserFixedN_flatten dec l ser vs rest hdec,
+    bne_self_eq_false, Bool.false_eq_true, Bool.not_true, Option.map_some]
+
+theorem readOffsets_vparts (ser : Val → List UInt8) (vs : List Val) (off : Nat) (tail : Stream)
+    (h : off + (varSection (vparts ser vs)).length < 2 ^ 32) :
+    readOffsets vs.length (fixedSection (vparts ser vs) off ++ tail)
+      = (offsList (vparts ser vs) off, tail) := by
+  induction vs generalizing off with
+  | nil => rfl
+  | cons v vs ih =>
+    simp only [vparts_cons, varSection, List.length_append] at h
+    have h1 : off < 2 ^ 32 := by omega
+    have ih' := ih (off + (ser v).length) (by omega)
+    simp only [vparts_cons, fixedSection, List.length_cons, readOffsets, List.append_assoc,
+      readOffset_toLE _ _ h1, ih', offsList]
+
+theorem deserVarN_vparts (dec : Dec) (emin emax : Nat) (ser : Val → List UInt8) (vs : List Val)
+    (off : Nat) (rest : Stream)
+    (hb : ∀ v ∈ vs, emin ≤ (ser v).length ∧ (ser v).length ≤ emax)
+    (hdec : ∀ v ∈ vs, ∀ r, dec (ser v ++ r) (ser v).length = some (v, r)) :
+    deserVarN dec emin emax (bounds (vparts ser vs) off) (varSection (vparts ser vs) ++ rest)
+      = some (vs, rest) := by
+  induction vs generalizing off with
+  | nil => simp [bounds, deserVarN, varSection]
+  | cons v vs ih =>
+    have hv := hdec v (by simp) (varSection (vparts ser vs) ++ rest)
+    have hbv := hb v (by simp)
+    have ih' := ih (off + (ser v).length) (fun w hw => hb w (by simp [hw]))
+      (fun w hw => hdec w (by simp [hw]))
+    obtain ⟨tl, htl⟩ := bounds_head (vparts ser vs) (off + (ser v).length)
+    rw [htl] at ih'
+    have h1 : ¬ (off + (ser v).length < off) := by omega
+    have h2 : off + (ser v).length - off = (ser v).length := by omega
+    simp only [vparts_cons, bounds, varSection, htl, deserVarN, h1, if_false, h2, hbv.1, hbv.2,
+      decide_true, Bool.and_self, Bool.not_true, Bool.false_eq_true, List.append_assoc, hv, ih']
+
+theorem deserSeqWith_var (dec : Dec) (l emin emax : Nat) (validCount : Nat → Bool)
+    (ser : Val → List UInt8) (vs : List Val) (rest : Stream)
+    (hb : ∀ v ∈ vs, emin ≤ (ser v).length ∧ (ser v).length ≤ emax)
+    (hdec : ∀ v ∈ vs, ∀ r, dec (ser v ++ r) (ser v).length = some (v, r))
+    (hvc : validCount vs.length = true)
+    (hlen : (interleave (vparts ser vs)).length < 2 ^ 32) :
+    deserSeqWith dec false l emin emax validCount (interleave (vparts ser vs) ++ rest)
+      (interleave (vparts ser vs)).length = some (.seq vs, rest) := by
+  cases vs with
+  | nil =>
+    simp only [List.length_nil] at hvc
+    simp [deserSeqWith, interleave, fixedSection, varSection, hvc]
+  | cons v vs =>
+    have hft : fixedTotal ((false, ser v) :: vparts ser vs) = 4 * (vs.length + 1) := by
+      simp only [fixedTotal, fixedTotal_vparts]; omega
+    have hsc : (interleave (vparts ser (v :: vs))).length
+        = 4 * (vs.length + 1) + (ser v).length + (varSection (vparts ser vs)).length := by
+      simp only [interleave, List.length_append, Sizes.fixedSection_length, vparts_cons, hft,
+        varSection]
+      omega
+    rw [hsc] at hlen
+    rw [hsc]
+    simp only [List.length_cons] at hvc
+    have hro := readOffsets_vparts ser vs (4 * (vs.length + 1) + (ser v).length)
+      (varSection (vparts ser (v :: vs)) ++ rest) (by omega)
+    have hbd := offsList_append_end (vparts ser vs) (4 * (vs.length + 1) + (ser v).length)
+    have hdv := deserVarN_vparts dec emin emax ser (v :: vs) (4 * (vs.length + 1)) rest hb hdec
+    simp only [vparts_cons, bounds] at hdv
+    have h0 : ¬ (4 * (vs.length + 1) + (ser v).length + (varSection (vparts ser vs)).length = 0) := by
+      omega
+    have h1 : ¬ (4 * (vs.length + 1) >
+        4 * (vs.length + 1) + (ser v).length + (varSection (vparts ser vs)).length) := by omega
+    have h2 : 4 * (vs.length + 1) % 4 = 0 := by omega
+    have h3 : 4 * (vs.length + 1) / 4 = vs.length + 1 := by omega
+    simp only [deserSeqWith, Bool.false_eq_true, if_false, h0, interleave, vparts_cons, hft,
+      fixedSection, List.append_assoc, readOffset_toLE _ _ (by omega : 4 * (vs.length + 1) < 2 ^ 32),
+      h1, h2, h3, bne_self_eq_false, hvc, Bool.not_true, Nat.add_one_ne_zero, Nat.add_sub_cancel]
+    simp only [vparts_cons] at hro
+    rw [hro]
+    simp only [List.cons_append, hbd, hdv, Option.map_some]
+
+/-! ## containers: slots, dynamic values -/
+
+/-- result of the first container pass: decoded fixed-size fields, `none` for variable-size ones -/
+def slotsOf : List Ty → List Val → List (Option Val)
+  | t :: ts, v :: vs => (if isFixed t then some v else none) :: slotsOf ts vs
+  | _, _ => []
+
+/-- the variable-size fields in order -/
+def dynOf : List Ty → List Val → List Val
+  | t :: ts, v :: vs => if isFixed t then dynOf ts vs else v :: dynOf ts vs
+  | _, _ => []
+
+theorem mergeSlots_slotsOf (fs : List Ty) (vs : List Val) (h : WTs fs vs = true) :
+    mergeSlots (slotsOf fs vs) (dynOf fs vs) = vs := by
+  induction fs generalizing vs with
+  | nil =>
+    cases vs with
+    | nil => rfl
+    | cons v vs => simp [WTs] at h
+  | cons t ts ih =>
+    cases vs with
+    | nil => simp [WTs] at h
+    | cons v vs =>
+      simp only [WTs, Bool.and_eq_true] at h
+      cases hf : isFixed t <;> simp [slotsOf, dynOf, hf, mergeSlots, ih vs h.2]
+
+theorem interleave_length_total (parts : List (Bool × List UInt8)) :
+    (interleave parts).length = fixedTotal parts + (varSection parts).length := by
+  simp [interleave, Sizes.fixedSection_length]
+
+theorem fixedTotal_serializeFields (fs : List Ty) (vs : List Val) (hwf : Ty.wfList fs = true)
+    (hwt : WTs fs vs = true) : fixedTotal (serializeFields fs vs) = fixedPartLen fs := by
+  induction fs generalizing vs with
+  | nil =>
+    cases vs with
+    | nil => rfl
+    | cons v vs => simp [WTs] at hwt
+  | cons t ts ih =>
+    cases vs with
+    | nil => simp [WTs] at hwt
+    | cons v vs =>
+      simp only [WTs, Bool.and_eq_true] at hwt
+      simp only [Ty.wfList, Bool.and_eq_true] at hwf
+      cases hf : isFixed t
+      · simp [serializeFields, fixedTotal, fixedPartLen, hf, ih vs hwf.2 hwt.2]
+      · simp [serializeFields, fixedTotal, fixedPartLen, hf, ih vs hwf.2 hwt.2,
+          serialize_fixed t v hwf.1 hwt.1 hf]
+
+theorem varSection_allFixed (fs : List Ty) (vs : List Val) (hf : allFixed fs = true) :
+    varSection (serializeFields fs vs) = [] := by
+  induction fs generalizing vs with
+  | nil => cases vs <;> rfl
+  | cons t ts ih =>
+    cases vs with
+    | nil => rfl
+    | cons v vs =>
+      simp only [allFixed, Bool.and_eq_true] at hf
+      simp [serializeFields, hf.1, varSection, ih vs hf.2]
+
+theorem offsList_head (fs : List Ty) (vs : List Val) (off : Nat) (hf : allFixed fs = false)
+    (hwt : WTs fs vs = true) : ∃ tl, offsList (serializeFields fs vs) off = off :: tl := by
+  induction fs generalizing vs with
+  | nil => simp [allFixed] at hf
+  | cons t ts ih =>
+    cases vs with
+    | nil => simp [WTs] at hwt
+    | cons v vs =>
+      simp only [WTs, Bool.and_eq_true] at hwt
+      cases ht : isFixed t
+      · simp only [serializeFields, ht, offsList]; exact ⟨_, rfl⟩
+      · simp only [allFixed, ht, Bool.true_and] at hf
+        simp only [serializeFields, ht, offsList]
+        exact ih vs hf hwt.2
+
+theorem WTopt_lt (opts : List Ty) (k : Nat) (v : Val) (h : WTopt opts k v = true) :
+    k < opts.length := by
+  induction opts generalizing k with
+  | nil => simp [WTopt] at h
+  | cons t ts ih =>
+    cases k with
+    | zero => simp
+    | succ k => simp only [WTopt] at h; have := ih k h; simp; omega
+
+/-! ## the main induction -/
+
+mutual
+theorem rt (t : Ty) (v : Val) (rest : Stream) (hwf : t.wf = true) (hwt : WT t v = true)
+    (hlen : (serialize t v).length < 2 ^ 32) :
+    deser t (serialize t v ++ rest) (serialize t v).length = some (v, rest) := by
+  cases t with
+  | uint nb =>
+    cases v with
+    | num n => simp only [serialize]; exact rt_uint nb n rest hwt
+    | _ => simp [WT] at hwt
+  | bool =>
+    cases v with
+    | num n => simp only [serialize]; exact rt_bool n rest hwt
+    | _ => simp [WT] at hwt
+  | bitvector len =>
+    cases v with
+    | bits bs => simp only [serialize]; exact rt_bitvector len bs rest hwf hwt
+    | _ => simp [WT] at hwt
+  | bitlist lim =>
+    cases v with
+    | bits bs => simp only [serialize]; exact rt_bitlist lim bs rest hwt
+    | _ => simp [WT] at hwt
+  | bytevector len =>
+    cases v with
+    | bytes bs => simp only [serialize]; exact rt_bytevector len bs rest hwt
+    | _ => simp [WT] at hwt
+  | bytelist lim =>
+    cases v with
+    | bytes bs => simp only [serialize]; exact rt_bytelist lim bs rest hwt
+    | _ => simp [WT] at hwt
+  | vector et n =>
+    cases v with
+    | seq vs =>
+      simp only [WT, Bool.and_eq_true, beq_iff_eq, List.all_eq_true] at hwt
+      simp only [Ty.wf, Bool.and_eq_true, decide_eq_true_eq] at hwf
+      simp only [serialize] at hlen
+      have hel : ∀ v ∈ vs, (serialize et v).length < 2 ^ 32 := fun v hv => by
+        have := mem_parts_le_interleave _ (isFixed et, serialize et v)
+          (List.mem_map_of_mem (f := fun v => (isFixed et, serialize et v)) hv)
+        exact Nat.lt_of_le_of_lt this hlen
+      simp only [serialize, deser]
+      cases hf : isFixed et with
+      | true =>
+        exact deserSeqWith_fixed (deser et) _ _ _ _ (serialize et) vs rest
+          (fixedLen_pos et hwf.2 hf) (fun v hv => serialize_fixed et v hwf.2 (hwt.2 v hv) hf)
+          (fun v hv r => by
+            have := rt et v r hwf.2 (hwt.2 v hv) (hel v hv)
+            rwa [serialize_fixed et v hwf.2 (hwt.2 v hv) hf] at this)
+          (by simp [hwt.1])
+      | false =>
+        rw [hf] at hlen
+        exact deserSeqWith_var (deser et) _ _ _ _ (serialize et) vs rest
+          (fun v hv => serialize_bounds et v hwf.2 (hwt.2 v hv))
+          (fun v hv r => rt et v r hwf.2 (hwt.2 v hv) (hel v hv))
+          (by simp [hwt.1]) hlen
+    | _ => simp [WT] at hwt
+  | list et lim =>
+    cases v with
+    | seq vs =>
+      simp only [WT, Bool.and_eq_true, decide_eq_true_eq, List.all_eq_true] at hwt
+      simp only [Ty.wf] at hwf
+      simp only [serialize] at hlen
+      have hel : ∀ v ∈ vs, (serialize et v).length < 2 ^ 32 := fun v hv => by
+        have := mem_parts_le_interleave _ (isFixed et, serialize et v)
+          (List.mem_map_of_mem (f := fun v => (isFixed et, serialize et v)) hv)
+        exact Nat.lt_of_le_of_lt this hlen
+      simp only [serialize, deser]
+      cases hf : isFixed et with
+      | true =>
+        exact deserSeqWith_fixed (deser et) _ _ _ _ (serialize et) vs rest
+          (fixedLen_pos et hwf hf) (fun v hv => serialize_fixed et v hwf (hwt.2 v hv) hf)
+          (fun v hv r => by
+            have := rt et v r hwf (hwt.2 v hv) (hel v hv)
+            rwa [serialize_fixed et v hwf (hwt.2 v hv) hf] at this)
+          (by simp [hwt.1])
+      | false =>
+        rw [hf] at hlen
+        exact deserSeqWith_var (deser et) _ _ _ _ (serialize et) vs rest
+          (fun v hv => serialize_bounds et v hwf (hwt.2 v hv))
+          (fun v hv r => rt et v r hwf (hwt.2 v hv) (hel v hv))
+          (by simp [hwt.1]) hlen
+    | _ => simp [WT] at hwt
+  | container fs =>
+    cases v with
+    | seq vs =>
+      have hwf0 := hwf
+      have hwt0 := hwt
+      simp only [WT] at hwt
+      simp only [Ty.wf, Bool.and_eq_true] at hwf
+      simp only [serialize] at hlen
+      have htot := interleave_length_total (serializeFields fs vs)
+      simp only [serialize, deser]
+      cases hf : allFixed fs with
+      | true =>
+        have hvar := varSection_allFixed fs vs hf
+        have hsc : (interleave (serializeFields fs vs)).length = fixedLenSum fs := by
+          have := serialize_fixed (.container fs) (.seq vs) hwf0 hwt0 (by simp [isFixed, hf])
+          simpa only [serialize, fixedLen] using this
+        have hff := rtFixedFields fs vs (fixedTotal (serializeFields fs vs)) rest hwf.2 hwt hf
+          (by omega)
+        simp only [hsc]
+        simp only [bne_self_eq_false, Bool.false_eq_true, if_false, if_true, interleave, hvar,
+          List.append_nil, hff, Option.map_some]
+      | false =>
+        have hft := fixedTotal_serializeFields fs vs hwf.2 hwt
+        have hscan := rtScan fs vs (fixedTotal (serializeFields fs vs))
+          (varSection (serializeFields fs vs) ++ rest) hwf.2 hwt (by omega) (by omega)
+        obtain ⟨tl, htl⟩ := offsList_head fs vs (fixedTotal (serializeFields fs vs)) hf hwt
+        have hbd := offsList_append_end (serializeFields fs vs) (fixedTotal (serializeFields fs vs))
+        have hdyn := rtDyn fs vs (fixedTotal (serializeFields fs vs)) rest hwf.2 hwt (by omega)
+        rw [← hbd, htl] at hdyn
+        rw [htl] at hscan
+        simp only [hft] at hscan hdyn
+        simp only [htot]
+        simp only [Bool.false_eq_true, if_false, interleave, List.append_assoc, hscan,
+          List.head?_cons, hft, bne_self_eq_false, hdyn, mergeSlots_slotsOf fs vs hwt]
+    | _ => simp [WT] at hwt
+  | union hasNone opts =>
+    cases v with
+    | un sel v =>
+      have hw := Sizes.union_wf_opts_ne hasNone opts hwf
+      simp only [Ty.wf, Bool.and_eq_true, decide_eq_true_eq] at hwf
+      simp only [WT] at hwt
+      simp only [serialize] at hlen
+      by_cases hc : (hasNone && sel == 0) = true
+      · simp only [hc, if_true] at hwt
+        simp only [Bool.and_eq_true, beq_iff_eq] at hc
+        obtain ⟨rfl, rfl⟩ := hc
+        cases v with
+        | none => simp [serialize, deser, optCount]
+        | _ => simp at hwt
+      · simp only [hc, Bool.false_eq_true, if_false] at hwt hlen
+        have hidx := WTopt_lt _ _ _ hwt
+        have hsel : sel < optCount hasNone opts := by
+          cases hasNone with
+          | false => simpa [optCount, optIndex] using hidx
+          | true =>
+            have : sel ≠ 0 := by intro h; subst h; simp at hc
+            simp only [optIndex, if_true] at hidx
+            simp only [optCount, if_true]; omega
+        have hnat : (UInt8.ofNat sel).toNat = sel := by
+          rw [UInt8.toNat_ofNat']; apply Nat.mod_eq_of_lt; omega
+        have hopt := rtOpt opts (optIndex hasNone sel) v rest hw.2 hwt
+          (by simp only [List.length_cons] at hlen; omega)
+        have h1 : ¬ ((serializeOpt opts (optIndex hasNone sel) v).length + 1 < 1) := by omega
+        have h2 : ¬ (sel ≥ optCount hasNone opts) := by omega
+        simp only [serialize, deser, hc, Bool.false_eq_true, if_false, List.length_cons, h1,
+          List.cons_append, List.take_succ_cons, List.take_zero, fromLE_cons, fromLE_nil, hnat,
+          Nat.mul_zero, Nat.add_zero, h2, List.drop_succ_cons, List.drop_zero, Nat.add_sub_cancel,
+          hopt, Option.map_some]
+    | _ => simp [WT] at hwt
+
+theorem rtFixedFields (fs : List Ty) (vs : List Val) (off : Nat) (tail : Stream)
+    (hwf : Ty.wfList fs = true) (hwt : WTs fs vs = true) (hfix : allFixed fs = true)
+    (hlen : fixedTotal (serializeFields fs vs) < 2 ^ 32) :
+    deserFixedFields fs (fixedSection (serializeFields fs vs) off ++ tail) = some (vs, tail) := by
+  cases fs with
+  | nil =>
+    cases vs with
+    | nil => rfl
+    | cons v vs => simp [WTs] at hwt
+  | cons t ts =>
+    cases vs with
+    | nil => simp [WTs] at hwt
+    | cons v vs =>
+      simp only [WTs, Bool.and_eq_true] at hwt
+      simp only [Ty.wfList, Bool.and_eq_true] at hwf
+      simp only [allFixed, Bool.and_eq_true] at hfix
+      simp only [serializeFields, hfix.1, fixedTotal] at hlen
+      have h1 := rt t v (fixedSection (serializeFields ts vs) off ++ tail) hwf.1 hwt.1 (by omega)
+      rw [serialize_fixed t v hwf.1 hwt.1 hfix.1] at h1
+      have h2 := rtFixedFields ts vs off tail hwf.2 hwt.2 hfix.2 (by omega)
+      simp only [serializeFields, hfix.1, fixedSection, List.append_assoc, deserFixedFields, h1, h2]
+
+theorem rtScan (fs : List Ty) (vs : List Val) (off : Nat) (tail : Stream)
+    (hwf : Ty.wfList fs = true) (hwt : WTs fs vs = true)
+    (hlen : fixedTotal (serializeFields fs vs) < 2 ^ 32)
+    (hoff : off + (varSection (serializeFields fs vs)).length < 2 ^ 32) :
+    deserScan fs (fixedSection (serializeFields fs vs) off ++ tail)
+      = some (slotsOf fs vs, offsList (serializeFields fs vs) off, tail) := by
+  cases fs with
+  | nil =>
+    cases vs with
+    | nil => rfl
+    | cons v vs => simp [WTs] at hwt
+  | cons t ts =>
+    cases vs with
+    | nil => simp [WTs] at hwt
+    | cons v vs =>
+      simp only [WTs, Bool.and_eq_true] at hwt
+      simp only [Ty.wfList, Bool.and_eq_true] at hwf
+      cases hf : isFixed t with
+      | true =>
+        simp only [serializeFields, hf, fixedTotal, varSection] at hlen hoff
+        have h1 := rt t v (fixedSection (serializeFields ts vs) off ++ tail) hwf.1 hwt.1 (by omega)
+        rw [serialize_fixed t v hwf.1 hwt.1 hf] at h1
+        have h2 := rtScan ts vs off tail hwf.2 hwt.2 (by omega) hoff
+        simp only [serializeFields, hf, fixedSection, List.append_assoc, deserScan, if_true, h1, h2,
+          slotsOf, offsList]
+      | false =>
+        simp only [serializeFields, hf, fixedTotal, varSection, List.length_append] at hlen hoff
+        have h2 := rtScan ts vs (off + (serialize t v).length) tail hwf.2 hwt.2 (by omega)
+          (by omega)
+        simp only [serializeFields, hf, fixedSection, List.append_assoc, deserScan,
+          Bool.false_eq_true, if_false, readOffset_toLE off _ (by omega : off < 2 ^ 32), h2,
+          slotsOf, offsList]
+
+theorem rtDyn (fs : List Ty) (vs : List Val) (off : Nat) (rest : Stream)
+    (hwf : Ty.wfList fs = true) (hwt : WTs fs vs = true)
+    (hlen : (varSection (serializeFields fs vs)).length < 2 ^ 32) :
+    deserDyn fs (bounds (serializeFields fs vs) off) (varSection (serializeFields fs vs) ++ rest)
+      = some (dynOf fs vs, rest) := by
+  cases fs with
+  | nil =>
+    cases vs with
+    | nil => rfl
+    | cons v vs => simp [WTs] at hwt
+  | cons t ts =>
+    cases vs with
+    | nil => simp [WTs] at hwt
+    | cons v vs =>
+      simp only [WTs, Bool.and_eq_true] at hwt
+      simp only [Ty.wfList, Bool.and_eq_true] at hwf
+      cases hf : isFixed t with
+      | true =>
+        simp only [serializeFields, hf, varSection] at hlen
+        have h2 := rtDyn ts vs off rest hwf.2 hwt.2 hlen
+        simp only [serializeFields, hf, bounds, varSection, deserDyn, if_true, h2, dynOf]
+      | false =>
+        simp only [serializeFields, hf, varSection, List.length_append] at hlen
+        have h1 := rt t v (varSection (serializeFields ts vs) ++ rest) hwf.1 hwt.1 (by omega)
+        have hb := serialize_bounds t v hwf.1 hwt.1
+        have h2 := rtDyn ts vs (off + (serialize t v).length) rest hwf.2 hwt.2 (by omega)
+        obtain ⟨tl, htl⟩ := bounds_head (serializeFields ts vs) (off + (serialize t v).length)
+        rw [htl] at h2
+        have h3 : ¬ (off > off + (serialize t v).length) := by omega
+        have h4 : off + (serialize t v).length - off = (serialize t v).length := by omega
+        simp only [serializeFields, hf, bounds, varSection, htl, deserDyn, Bool.false_eq_true,
+          if_false, h3, h4, hb.1, hb.2, decide_true, Bool.and_self, Bool.not_true,
+          List.append_assoc, h1, h2, dynOf]
+
+theorem rtOpt (opts : List Ty) (k : Nat) (v : Val) (rest : Stream) (hwf : Ty.wfList opts = true)
+    (hwt : WTopt opts k v = true) (hlen : (serializeOpt opts k v).length < 2 ^ 32) :
+    deserOpt opts k (serializeOpt opts k v ++ rest) (serializeOpt opts k v).length
+      = some (v, rest) := by
+  cases opts with
+  | nil => simp [WTopt] at hwt
+  | cons t ts =>
+    simp only [Ty.wfList, Bool.and_eq_true] at hwf
+    cases k with
+    | zero =>
+      simp only [WTopt] at hwt
+      simp only [serializeOpt] at hlen ⊢
+      simp only [deserOpt]
+      exact rt t v rest hwf.1 hwt hlen
+    | succ k =>
+      simp only [WTopt] at hwt
+      simp only [serializeOpt] at hlen ⊢
+      simp only [deserOpt]
+      exact rtOpt ts k v rest hwf.2 hwt hlen
+end
+
+/-! ## C03: decoding inverts encoding -/
+
+/-- every valid encoding is accepted anywhere in a stream, yields the same content, and consumes
+    exactly `scope` bytes -/
+theorem roundtrip (t : Ty) (v : Val) (rest : Stream) (hwf : t.wf = true) (hwt : WT t v = true)
+    (hlen : (Spec.serialize t v).length < 2 ^ 32) :
+    Impl.deser t (Spec.serialize t v ++ rest) (Spec.serialize t v).length = some (v, rest) :=
+  rt t v rest hwf hwt hlen
+
+theorem decode_bytes (t : Ty) (v : Val) (hwf : t.wf = true) (hwt : WT t v = true)
+    (hlen : (Spec.serialize t v).length < 2 ^ 32) :
+    Impl.deser t (Spec.serialize t v) (Spec.serialize t v).length = some (v, []) := by
+  have := roundtrip t v [] hwf hwt hlen
+  rwa [List.append_nil] at this
+
 end Rmk.DecodeRoundtrip
